@@ -15,12 +15,21 @@ expression shape, a preprocessor directive inside a body, a ``goto``/``while``/`
 Event vocabulary: see coq/Model/Own.v.  Conventions of the emission:
   * a call that may run Python:   EUse args ; EMayCall ; EUse args ; [ENewRef r] on success
     (the arguments must stay alive for the whole call);
-  * PyDict_GetItem[WithError](d, k): EUse d ; EUse k ; EKeyCall ; EUse k ; EUse d ; [EFetchItemD r d] on a hit;
+  * PyDict_GetItem[WithError](d, k): EUse d ; EUse k ; EKeyCall ; EUse k ; EUse d ; [EFetchItem r d] on a hit;
   * PyDict_SetItem(d, k, v):      EUse d ; EUse k ; EUse v ; EKeyCall ; EUse k ; EUse d ;
                                   on success EStoreItem d v ; EMayCall (a replaced value is released);
   * Py_DECREF / Py_XDECREF / Py_CLEAR of a local: EDecref; of ``self->slot``: EClearSlot;
   * ``self`` and module-level constants (Py_None, interned strings, types) are static: no events;
-    ``Py_DECREF(Py_None)`` releases the value the path knows to be ``== Py_None``.
+    ``Py_DECREF(Py_None)`` releases the value the path knows to be ``== Py_None``;
+  * PyTuple_GET_ITEM(t, i) is identified with the tuple ``t`` itself (EUse t): tuples are immutable,
+    so the item lives as long as the tuple is kept alive; any use of such an item other than passing
+    it on (INCREF, DECREF, storing, returning) aborts.  PyTuple_GET_SIZE / GET_ITEM / GetSlice are only
+    accepted on values known to be tuples (created by a tuple-returning API, read from a tuple slot,
+    or a parameter every extracted call site passes a tuple for);
+  * a failed PyDict_New / PyTuple_New whose NULL result the C code dereferences without a test
+    (memory exhaustion) is recorded as a note and that path is dropped; any other NULL misuse aborts;
+  * LB_clear / VB_clear (only Py_CLEAR statements) are inlined at their call sites; every other call
+    between extracted functions becomes ECall (summary: Model/Own.v [expand]).
 """
 import copy
 import json
